@@ -238,6 +238,62 @@ def gen_clearq(rng, na, ctls):
         ev += ["M%d.1" % rng.randrange(na), "r", cc(ctls[-1], 7), "n", "r", cc(ctls[-1], 8)]
     return ev
 
+def gen_clearcross(rng, na, ctls):
+    """clear() between the two halves' messages: an address is queued and watched, a free
+    controller uses the watch up, clear() runs while the midi-use-CC is still on its way (or just
+    after it was served, or before the watch arrived); every order of the deliveries that follow;
+    then another address is mapped and must be learned by a free controller"""
+    a = list(range(na))
+    rng.shuffle(a)
+    c0, c1 = ctls[0], ctls[1 % len(ctls)]
+    ev = []
+    if rng.random() < 0.4:          # something bound before
+        ev += ["M%d.1" % a[-1], "r", cc(ctls[-1], 9), "n", "r"]
+    ev += ["M%d.%d" % (a[0], rng.choice([1, 1, 0]))]
+    shape = rng.randrange(6)
+    if shape == 0:                  # the seeded shape: offer, clear, then the deliveries in any order
+        ev += ["r", cc(c0, 64), "X"]
+    elif shape == 1:                # two addresses queued, one offer
+        ev += ["M%d.1" % a[1], "r", "r", cc(c0, 64), "X"]
+    elif shape == 2:                # the offer falls between clear() and the arrival of its messages
+        ev += ["r", "X", cc(c0, 64)]
+    elif shape == 3:                # clear() before the watch has arrived
+        ev += ["X", "r", cc(c0, 64)]
+    elif shape == 4:                # served, answer on its way, then clear()
+        ev += ["r", cc(c0, 64), "n", "X"]
+    else:                           # clear(), map again, then the old midi-use-CC arrives
+        ev += ["r", cc(c0, 64), "X", "M%d.1" % a[1]]
+    tail = ["n", "r", "r", "r"]
+    rng.shuffle(tail)
+    ev += tail + ["r", "n", "r"]
+    # afterwards: a fresh learn must work, for the controller involved and for another one
+    b = a[1] if na > 1 else a[0]
+    who = rng.choice([c0, c1])
+    ev += ["M%d.1" % b, "r", cc(who, 1), "n", "r", cc(who, 100), cc(c0, 2), cc(c1, 3)]
+    if rng.random() < 0.5:
+        ev += ["M%d.0" % b, "r", cc(c1 if who == c0 else c0, 5), "n", "r", cc(c0, 6), cc(c1, 7)]
+    return ev
+
+def gen_answered(rng, na, ctls):
+    """a map / unMap / clear whose bind is sent while controllers are pending whose answers are
+    already on their way (admitted by nocross, not by the earlier `quiescent`)"""
+    a = list(range(na))
+    rng.shuffle(a)
+    cs = list(ctls)
+    rng.shuffle(cs)
+    ev = ["M%d.1" % a[0], "r", cc(cs[0], 3), "n", "r"]            # a[0] bound to cs[0]
+    k = rng.choice([1, 2]) if na > 2 and len(cs) > 2 else 1
+    for x in a[1:1 + k]:
+        ev += ["M%d.%d" % (x, rng.choice([1, 1, 0]))]
+    ev += ["r"] * k
+    ev += [cc(c, rng.randrange(128)) for c in cs[1:1 + k]]
+    ev += ["n"] * k                                                # all answered, answers in flight
+    ev.append(rng.choice(["U%d.1" % a[0], "M%d.1" % a[0], "M%d.0" % a[0], "X", "U%d.1" % a[1]]))
+    ev += ["r"] * rng.choice([0, 1, k]) + [cc(c, rng.randrange(128)) for c in cs[:1 + k]]
+    ev += ["r"] * (k + 3) + ["n", "r"]
+    ev += [cc(c, rng.randrange(128)) for c in cs[:1 + k]]
+    return ev
+
 def interleavings(base, ndel):
     """all histories that insert at most ndel deliveries (r/n) into base"""
     k = len(base)
@@ -255,12 +311,12 @@ def interleavings(base, ndel):
                 out.append(h)
     return out
 
-def mk_case(rng, ports, ev, ctls, dist, kind):
+def mk_case(rng, ports, ev, ctls, dist, kind, extra=None):
     ev = list(ev) + DRAIN + probes(rng, ctls)
     dist["kind=" + kind] = dist.get("kind=" + kind, 0) + 1
     dist["addresses=%d" % len(ports)] = dist.get("addresses=%d" % len(ports), 0) + 1
     dist["controllers=%d" % len(ctls)] = dist.get("controllers=%d" % len(ctls), 0) + 1
-    return "hist %s %s" % (",".join(port_field(p) for p in ports), ",".join(ev))
+    return "hist %s %s" % (",".join(port_field(p) for p in ports), ",".join(ev)) + (" " + extra if extra else "")
 
 def pick_ports(rng):
     na = rng.choice([2, 2, 3, 3, 4])
@@ -308,6 +364,14 @@ def gen(rng, tier, dist):
             out.append(mk_case(rng, ports, gen_twokinds(rng, len(ports), ctls), ctls, dist, "two-kinds"))
         else:
             out.append(mk_case(rng, ports, gen_clearq(rng, len(ports), ctls), ctls, dist, "clear-queue"))
+    # clear() between the halves' messages; foreign binds sent while answered controllers are pending
+    for i in range(500 if tier == "quick" else 6000):
+        ports = pick_ports(rng)
+        ctls = rand_ctls(rng)
+        if i % 5 < 3:
+            out.append(mk_case(rng, ports, gen_clearcross(rng, len(ports), ctls), ctls, dist, "clear-cross"))
+        else:
+            out.append(mk_case(rng, ports, gen_answered(rng, len(ports), ctls), ctls, dist, "answered-pending"))
     # exactly 32 controllers offered at once (the PendingQueue's capacity), over a larger table
     for i in range(1 if tier == "quick" else 6):
         n = 34
@@ -317,6 +381,18 @@ def gen(rng, tier, dist):
         ev += ["C%d.2.1.0" % rng.randrange(32)]
         ev += ["n"] * 33 + ["r"] * 34 + ["C%d.%d.1.0" % (j, rng.randrange(128)) for j in range(0, 34, 3)]
         out.append(mk_case(rng, ports, ev, [(0, 1, 0), (31, 1, 0), (33, 1, 0)], dist, "capacity-32"))
+    # 33 / 34 / 40 offered at once: beyond the PendingQueue (outside the property's quantifier, the Spec
+    # is not evaluated: field `tieonly`); model and code must still do the same (C20_capacity_refuted)
+    for i in range(2 if tier == "quick" else 8):
+        n = 40
+        k = [33, 34, 40, 36][i % 4]
+        ports = [("f", "0", "1")] * n
+        ev = ["M%d.1" % a for a in range(n)] + ["r"] * n
+        ev += ["C%d.%d.1.0" % (j, rng.randrange(128)) for j in range(k)]
+        ev += ["C%d.2.1.0" % rng.randrange(31, k) for _ in range(3)]
+        ev += ["n"] * (k + 3) + ["r"] * (k + 4) + ["C%d.%d.1.0" % (j, rng.randrange(128)) for j in range(0, k, 3)]
+        ev += ["U%d.1" % rng.randrange(k), "r", "C%d.7.1.0" % rng.randrange(31, k)]
+        out.append(mk_case(rng, ports, ev, [(0, 1, 0), (31, 1, 0), (32, 1, 0), (33, 1, 0)], dist, "capacity-over", "tieonly"))
     # the pending ring wraps after 32 learns
     for i in range(3 if tier == "quick" else 40):
         ports = pick_ports(rng)
@@ -342,10 +418,14 @@ def gen(rng, tier, dist):
     return out
 
 # ------------------------------------------------------------ the Spec -------
-def quiescent(case, impl):
-    """No midi-bind that is not the answer to a midi-use-CC is put on the queue
-    while a controller is pending, and no controller is offered while such a
-    bind is on the queue.  (Same predicate as MidiModel.quiescent.)"""
+def nocross(case, impl):
+    """No midi-bind crosses a midi-use-CC (same predicate as MidiSpec.nocross, which the model
+    driver evaluates on its own records; canon() puts both values into the compared lines):
+      N1  a midi-bind that is not the answer to a midi-use-CC (map / unMap / clear) is sent only
+          when every pending controller's answer is already on its way (pending controllers =
+          answering binds in flight);
+      N2  no controller is offered while such a bind is on its way.
+    Computed from the history and the records only."""
     f = case.split(" ")
     evs = parse_events(f[2])
     recs, crashed, _ = parse_impl(impl)
@@ -353,10 +433,10 @@ def quiescent(case, impl):
     chR = []
     for (k, a), rec in zip(evs, recs):
         if k in "MUX":
+            if "B" in rec and pend != chR.count("Ba"):
+                return False
             for it in rec:
                 if it == "B":
-                    if pend != 0:
-                        return False
                     chR.append("Bf")
                 elif it in ("W", "R"):
                     chR.append(it)
@@ -375,6 +455,26 @@ def quiescent(case, impl):
                 if m[0] == "B" and pend > 0:
                     pend -= 1
     return True
+
+def pending_before(case, impl, upto):
+    """the realtime side's pending controllers before event `upto`, from the records alone:
+    an offered controller enters at the back, every delivered midi-bind removes the front"""
+    f = case.split(" ")
+    evs = parse_events(f[2])
+    recs, crashed, _ = parse_impl(impl)
+    P = []
+    chR = []
+    for i, ((k, a), rec) in enumerate(zip(evs, recs)):
+        if i >= upto:
+            break
+        if k in "MUX" or k == "n":
+            chR += [it for it in rec if it in ("B", "W", "R")]
+        elif k == "C":
+            P += [int(it[1:]) for it in rec if it.startswith("U")]
+        elif k == "r" and chR:
+            if chR.pop(0) == "B" and P:
+                P.pop(0)
+    return P
 
 def spec_walk(case, impl):
     """-> (failure or None, info dict)"""
@@ -464,15 +564,17 @@ def spec_walk(case, impl):
                         return "protocol: controller %d offered as %s at %s" % (cid, us, where), {}
                     if cid in learning:
                         return ("learn: controller %d is offered a second time while its assignment is under way "
-                                "(it would take a second queued address) at %s" % (cid, where)), {}
+                                "(it would take a second queued address) at %s" % (cid, where)), \
+                            {"event": k_ev, "cid": cid, "learning": True}
                     if avail <= 0:
-                        return "learn: controller %d is offered although no queued address waits at %s" % (cid, where), {}
+                        return ("learn: controller %d is offered although no queued address waits at %s" % (cid, where),
+                                {"event": k_ev, "cid": cid, "learning": False})
                     learning.add(cid)
                     avail -= 1
                     chN.append(cid)
                 elif want:
                     return ("learn: controller %d is not assigned, an address is queued, but it is not taken "
-                            "at %s" % (cid, where)), {}
+                            "at %s" % (cid, where)), {"event": k_ev, "cid": cid, "learning": False}
         elif k == "n":
             if not chN:
                 if rec != ["e"]:
@@ -520,23 +622,49 @@ def spec_walk(case, impl):
         return "crash: the code crashed at event %d of %s" % (len(recs), f[2]), {}
     return None, {"messages": nmsg, "assignments": nassign}
 
+def tie_only(case):
+    f = case.split(" ")
+    return len(f) > 3 and f[3] == "tieonly"
+
 def spec_check(case, impl):
     if impl in ("BADCASE", "PIPEFAIL") or impl.startswith("NOOUT"):
         return "harness: " + impl
+    if tie_only(case):      # more than 32 controllers learning at once: outside the property's quantifier
+        return None
     return spec_walk(case, impl)[0]
 
 def nontrivial(case, impl):
+    if tie_only(case):
+        return False
     fail, info = spec_walk(case, impl)
     return fail is None and info.get("assignments", 0) >= 2 and info.get("messages", 0) >= 2
 
 def classify(case, impl, failure):
-    if not quiescent(case, impl):
+    """bind-crosses-use-cc: the history has a midi-bind crossing a midi-use-CC (not nocross) AND the
+    failure is the defect's own symptom: the controller concerned is pending on the realtime side
+    although no answer to it is outstanding (it is then never offered), or not pending although its
+    answer is outstanding (it is then offered a second time) - i.e. a midi-bind has removed a
+    controller other than the one it answers.  Every other failure in a crossing history is judged
+    like anywhere else."""
+    if nocross(case, impl):
+        return None
+    fail, ctx = spec_walk(case, impl)
+    if fail is None or "cid" not in ctx or not fail.startswith("learn:"):
+        return None
+    pending = ctx["cid"] in pending_before(case, impl, ctx["event"])
+    if pending != ctx["learning"]:
         return "bind-crosses-use-cc"
     return None
 
 def canon(case, line):
-    # the crash text differs (ASan report vs model), the prefix must agree
-    return line
+    """The model driver's line ends in #N=<MidiSpec.nocross on the model's records>; the harness
+    line gets #N=<nocross of this file on the implementation's records>: the correspondence run
+    fails when the Coq predicate and the classifier's predicate disagree on a history."""
+    if "#N=" in line:
+        return line
+    if line in ("BADCASE", "PIPEFAIL") or line.startswith("NOOUT") or line.startswith("CRASH:"):
+        return line
+    return line + "#N=%d" % (1 if nocross(case, line) else 0)
 
 RULE = ("histories over 2..4 addresses drawn from a pool of int and float ranges (incl. the 0..127 int special case, "
         "non-representable decimal bounds, a degenerate and a tiny range) and 2..6 controllers (channel/NRPN spellings "
